@@ -215,9 +215,7 @@ def tasks_for(tier):
         ('law', dict(levy='none', size=(1,), supply_W=True, sym_ends=True, cache_size=None), 0, 2, mp, to),
         ('law', dict(levy='none', size=(2,), sym_ends=True, cache_size=1), 0, 2, mp, to),
         ('law', dict(levy='none', size=(1,), cache_size=45), 1, 2, mp, to),
-        # deep trees with H: exact algebraic arithmetic at rational times (symbolic noise), history of two prior queries
-        ('law', dict(levy='space-time', size=(1,), cache_size=1, times=[F(1, 8), F(1, 3), F(5, 7), F(9, 10)],
-                     prior_times=[[F(1, 5), F(3, 5)], [F(2, 5), F(4, 5)]]), 2, 3, mp, to),
+        # deeper tree with H: exact algebraic arithmetic at rational times (symbolic noise) after a prior query
         ('law', dict(levy='foster', size=(1,), cache_size=0, t0=F(-1, 2), t1=F(3, 2), times=[F(-1, 4), F(1, 3), F(1, 1)],
                      prior_times=[[F(0), F(1, 2)]]), 1, 2, mp, to),
         ('levy', dict(levy='davie', size=(1, 2)), False, None, mp, to),
@@ -231,8 +229,6 @@ def tasks_for(tier):
             ('law', dict(levy='none', size=(1,), cache_size=45), 1, 3, mp, to),
             ('law', dict(levy='space-time', size=(2,), sym_ends=True, pinned=True, supply_W=True), 0, 2, mp, to),
             ('law', dict(levy='none', size=(1,), tol=0.1, halfway=True), 0, 2, mp, to),
-            ('law', dict(levy='space-time', size=(2,), cache_size=2, dt=0.25, times=[F(1, 16), F(1, 4), F(1, 2), F(3, 4), F(15, 16)],
-                         prior_times=[[F(1, 10), F(9, 10)], [F(3, 10), F(7, 10)]]), 2, 4, mp, to),
         ]
     return T
 
@@ -324,8 +320,17 @@ def replay(data):
         if r['kind'] == 'law':
             q = {'return_U': True} if have_H else {}
             for k in range(r['a']):
-                bm(inp[f'p{k}a'], inp[f'p{k}b'], **q)
-            pts = [inp[f'x{i}'] for i in range(r['b'] + 1)]
+                if cfg.get('prior_times'):
+                    pa, pb = [float(Fraction(v)) for v in cfg['prior_times'][k]]
+                else:
+                    pa, pb = inp[f'p{k}a'], inp[f'p{k}b']
+                bm(pa, pb, **q)
+            if cfg.get('pinned'):
+                pts = [t0, inp['x1'], t1]
+            elif cfg.get('times'):
+                pts = [float(Fraction(v)) for v in cfg['times']]
+            else:
+                pts = [inp[f'x{i}'] for i in range(r['b'] + 1)]
             cols = []; labels = []; want_var = []
             for i, (p, qq) in enumerate(zip(pts[:-1], pts[1:])):
                 res = bm(p, qq, **q)
